@@ -222,3 +222,13 @@ impl DevInputWriter {
   }
 }
 
+
+// Verification hook (see /verif): a writer on an already open descriptor (a pipe), so that the
+// bytes `send` produces can be inspected without /dev/uinput. Compiled only with
+// `--cfg ellbur_totalmapper_verif`; adds no behaviour otherwise.
+#[cfg(ellbur_totalmapper_verif)]
+impl DevInputWriter {
+  pub fn verif_from_fd(fd: RawFd) -> DevInputWriter {
+    DevInputWriter { fd }
+  }
+}
